@@ -1,12 +1,26 @@
-"""C10 - only authenticated attributes are exposed after an integrity attribute."""
-from rules import parser as P
+"""C10 - only authenticated attributes are exposed after an integrity attribute.
+
+MessageAttributesIter::next is executed abstractly with the decoder of one attribute replaced by a summary that hands out
+an attribute of a chosen class (MESSAGE-INTEGRITY, MESSAGE-INTEGRITY-SHA256, FINGERPRINT, any other type) with symbolic
+length and bytes.  Starting from the memory iter_attributes() builds, every class sequence a single call can consume (up
+to a bound; attributes that are hidden are consumed inside the call) is its own path; the memory the iterator is left
+with (its concrete fields, whatever they are called) is explored until no new memory appears.  Each return state is
+compared with the specification transducer: the attribute handed out is the first one the specification exposes -
+everything up to and including the first integrity attribute, a MESSAGE-INTEGRITY-SHA256 directly after a
+MESSAGE-INTEGRITY, the FINGERPRINT - it is the attribute decoded last (type and length), None is returned only when the
+specification exposes nothing of what was consumed, and every memory reached stands for exactly one specification
+situation.  Lookups (raw_attribute / attribute / has_attribute) are first-match searches over iter_attributes() and
+nothing else (C02), so they expose the same set.  NOT decided: values of attributes, and sequences in which more hidden
+attributes than the bound precede an exposed one are covered by the closure of the memory, not by enumeration."""
+from rules import walk_e2 as W
 
 LEVEL = "proof"
 
 
 def run(prog, chk, tier):
-    chk.explanation = "iterator transducer over accepted tails"
-    P.iterator_transducer(prog, chk)
+    chk.explanation = __doc__.split("\n\n", 1)[1]
+    chk.trusted += ["external-callee model table", "summary of RawAttribute::from_bytes (its own checks are C01 / C02 tiling)", "rustc MIR construction"]
+    W.exposure_transducer(prog, chk, depth=3 if tier == "quick" else 4)
     # lookups expose exactly what iteration exposes: they are first-match searches over iter_attributes() and nothing else
     from rules.c02 import lookups
     lookups(prog, chk)
